@@ -154,8 +154,11 @@ def two_scripts_case(args):
             return 'two-scripts', 'declined', None
 
     def run_all():
-        p = subprocess.run([G.PY, '-m', 'unittest', '-v'] + ['test_%s' % nm for nm in names], cwd=d, env=G.env_for(d),
-                           stdout=subprocess.PIPE, stderr=subprocess.STDOUT, text=True, errors='replace', timeout=300)
+        for attempt in range(3):
+            p = subprocess.run([G.PY, '-m', 'unittest', '-v'] + ['test_%s' % nm for nm in names], cwd=d, env=G.env_for(d),
+                               stdout=subprocess.PIPE, stderr=subprocess.STDOUT, text=True, errors='replace', timeout=300)
+            if p.returncode >= 0:
+                break       # (death by signal at interpreter teardown under load: run it again)
         bad = sorted(set(m.group(2) + '.' + m.group(1) for m in re.finditer(r'^(?:FAIL|ERROR): (\w+) \((\w+)\.', p.stdout, flags=re.M)))
         ran = re.search(r'^Ran (\d+) tests?', p.stdout, flags=re.M)
         return p.returncode, bad, int(ran.group(1)) if ran else 0, p.stdout
